@@ -28,6 +28,7 @@ def run(ctx):
     _run_main(ctx)
     _shared_r5(ctx)
     _round6(ctx)
+    _round7(ctx)
 
 
 def _run_main(ctx):
@@ -98,3 +99,10 @@ def _round6(ctx):
     from rules import arms as A
     with ctx.rule('R20.9', "a close handled together with queued output stays a close: the seal set by the close paths is never undone, so is_connection_done's assertion holds (shared with C08)", floor=5) as r:
         A.include(ctx, r, 'c08', 'R08.2', pick=('sealed-assignment', 'constructed-unsealed', 'new:callers', 'never-replaced'))
+
+
+def _round7(ctx):
+    """Found by seeding round 7 (minimal one-line mutations)."""
+    from rules import arms as A
+    with ctx.rule('R20.10', "Connection::close racing a server close still closes: the client's Close is appended and the buffer sealed in one step (shared with C08)", floor=2) as r:
+        A.include(ctx, r, 'c08', 'R08.1', pick=('client-close',))
